@@ -18,6 +18,7 @@ import (
 	"context"
 	"encoding/json"
 	"fmt"
+	"hash/fnv"
 	"os"
 	"sort"
 	"testing"
@@ -210,6 +211,41 @@ type vfSplit struct {
 	Pre vfOutcome `json:"pre"`
 	Res vfOutcome `json:"res"`
 }
+// vfShared: the same calls once more, this time ALL ON THE SAME chunk values (whole, every split, whole again).
+// Everything is recorded as a digest (fnv64 of the canonical rendering): In[j] = digests of every input chunk before the
+// first call (j = 0) and after each call; Whole = first whole call, last whole call, and the FIRST result rendered again
+// at the very end; Pre[i] = prefix result right after its call and rendered again at the end; Res[i]; Ref = digests of
+// the corresponding outcomes of the calls on freshly built chunks.
+type vfShared struct {
+	In    [][]string `json:"in"`
+	Whole []string   `json:"whole"`
+	Pre   [][]string `json:"pre"`
+	Res   []string   `json:"res"`
+	Ref   vfRef      `json:"ref"`
+}
+type vfRef struct {
+	Whole string   `json:"whole"`
+	Pre   []string `json:"pre"`
+	Res   []string `json:"res"`
+}
+
+func vfDigest(v any) string {
+	b, err := json.Marshal(v)
+	if err != nil {
+		return "unrenderable:" + err.Error()
+	}
+	h := fnv.New64a()
+	_, _ = h.Write(b)
+	return fmt.Sprintf("%016x", h.Sum64())
+}
+
+func vfOutDigest(o vfOutcome) string {
+	if o.O != "ok" {
+		return o.O
+	}
+	return "ok:" + vfDigest(o.V)
+}
+
 type vfLine struct {
 	Ev     string      `json:"ev"`
 	ID     string      `json:"id"`
@@ -218,6 +254,7 @@ type vfLine struct {
 	Chunks []any       `json:"chunks"`
 	Full   []vfOutcome `json:"full"`
 	Splits []vfSplit   `json:"splits"`
+	Sh     vfShared    `json:"sh"`
 }
 
 // a kind: how to build a chunk, render a value, and which entry points exist
@@ -303,6 +340,55 @@ func (k *vfKind[T]) run(id string, chunks []vfChunk, pathOrder []string, emit fu
 			}
 			ln.Splits = append(ln.Splits, sp)
 		}
+		// shared-value pass
+		sh := vfShared{In: [][]string{}, Whole: []string{}, Pre: [][]string{}, Res: []string{}, Ref: vfRef{Pre: []string{}, Res: []string{}}}
+		S := fresh(0, n)
+		snap := func() {
+			ds := []string{}
+			for _, c := range S {
+				ds = append(ds, vfDigest(k.render(c)))
+			}
+			sh.In = append(sh.In, ds)
+		}
+		part := func(from, to int) []T { return append(make([]T, 0, to-from+1), S[from:to]...) }
+		snap()
+		w1v, w1o, w1m := vfCall1(f, part(0, n))
+		sh.Whole = append(sh.Whole, vfOutDigest(outcome(w1v, w1o, w1m)))
+		snap()
+		type held struct {
+			v T
+			o string
+		}
+		pres := []held{}
+		for i := 1; i < n; i++ {
+			pv, po, pm := vfCall1(f, part(0, i))
+			sh.Pre = append(sh.Pre, []string{vfOutDigest(outcome(pv, po, pm))})
+			pres = append(pres, held{pv, po})
+			snap()
+			if po == "ok" {
+				sh.Res = append(sh.Res, vfOutDigest(outcome(vfCall1(f, append([]T{pv}, part(i, n)...)))))
+				snap()
+			} else {
+				sh.Res = append(sh.Res, po)
+			}
+		}
+		w2v, w2o, w2m := vfCall1(f, part(0, n))
+		sh.Whole = append(sh.Whole, vfOutDigest(outcome(w2v, w2o, w2m)))
+		snap()
+		sh.Whole = append(sh.Whole, vfOutDigest(outcome(w1v, w1o, w1m))) // the first result, looked at again
+		for i, p := range pres {
+			sh.Pre[i] = append(sh.Pre[i], vfOutDigest(outcome(p.v, p.o, "")))
+		}
+		sh.Ref.Whole = vfOutDigest(ln.Full[0])
+		for _, sp := range ln.Splits {
+			sh.Ref.Pre = append(sh.Ref.Pre, vfOutDigest(sp.Pre))
+			if sp.Pre.O == "ok" {
+				sh.Ref.Res = append(sh.Ref.Res, vfOutDigest(sp.Res))
+			} else {
+				sh.Ref.Res = append(sh.Ref.Res, sp.Pre.O)
+			}
+		}
+		ln.Sh = sh
 		emit(ln)
 	}
 }
